@@ -1,10 +1,11 @@
 (* C01 — the specification.
 
    S, the reference evaluator, is [eval Ref]: the evaluator of Model.v with every switch set to what the language
-   definition says: lexical scoping (a scope sees the cells that existed when it was formed), a single-value
-   context takes the primary value of a multiple-value result, tests look at the primary value, the last form of
-   progn / a body passes all its values on, too few arguments are an error, dotimes leaves the number of iterations
-   in its variable, the end test of do is evaluated whatever its shape.
+   definition says: lexical scoping (a scope sees the cells that existed when it was formed), a variable bound by
+   let / let* / do / do* holds the primary value of its init or step form, too few arguments are an error.  (Since the
+   repairs C01-6..19 everything else - tests and the other single-value places take the primary value, the last form
+   of progn / a body passes all its values on, dotimes leaves the number of iterations in its variable, the end test
+   of do is evaluated whatever its shape - is the same definition in every mode.)
    M, the model of the Go code, is [eval Slip].
    The guard is the run in mode Chk: it stops with [Er EDev] at the first switch where M and S would part ways.
    [Laws.v] proves about S (and about M wherever the statement does not depend on the mode) the laws the property
